@@ -107,3 +107,24 @@ def distinct_scales(ctx, s1, s2, ratio=1e-3):
     """assume two symbolic scales are either exactly equal or differ by more than `ratio` relative: keeps harnesses
     out of unyt's deliberate 'same unit up to 1e-9' band where discontinuous operations legitimately differ"""
     ctx.assume(Or(exact_eq(s1, s2), s1 > s2 * (1 + ratio), s2 > s1 * (1 + ratio)))
+
+
+import contextlib
+
+
+@contextlib.contextmanager
+def as_ufunc_global(mods, standin):
+    """NumPy has no object-dtype loop for a few ufuncs (divmod, modf, nextafter, copysign, heaviside): harnesses hand the real
+    unyt_array.__array_ufunc__ a stand-in that is equal and hash-equal to the real ufunc. unyt also tests ufuncs by IDENTITY
+    (`ufunc is divmod_`): while the stand-in is in flight, every module global of unyt.array that names the real ufunc is bound
+    to the stand-in too, so identity tests answer as for the real one. Restored on exit (engine control exceptions included)."""
+    UA = mods["UA"]
+    real = standin.real
+    names = [n for n, v in vars(UA).items() if v is real]
+    for n in names:
+        setattr(UA, n, standin)
+    try:
+        yield
+    finally:
+        for n in names:
+            setattr(UA, n, real)
